@@ -55,6 +55,12 @@ def run_one(patch, seed, with_tests=False):
         lines = [ln for ln in c.stdout.splitlines() if ln.startswith("VIOLATION")]
         res["rc"] = c.returncode
         res["violations"] = len(lines)
+        import re as _re
+
+        m = _re.search(r"violating_scenarios=(\d+)", c.stdout)
+        res["violating_scenarios"] = int(m.group(1)) if m else None
+        m = _re.search(r"scenarios=(\d+)", c.stdout)
+        res["scenarios"] = int(m.group(1)) if m else None
         res["first"] = c.stdout.splitlines()[:4]
         res["status"] = "caught" if c.returncode == 1 and any(f"property={prop} " in ln for ln in lines) else "MISSED"
         if res["status"] == "MISSED":
@@ -73,7 +79,7 @@ def main(seed=0):
     for p in patches:
         r = run_one(p, seed, with_tests)
         results.append(r)
-        print(f"{r['mutant']:45s} {r.get('status')} rc={r.get('rc')} violations={r.get('violations')} suite_rc={r.get('suite_rc')}", flush=True)
+        print(f"{r['mutant']:45s} {r.get('status')} rc={r.get('rc')} violations={r.get('violations')} violating_scenarios={r.get('violating_scenarios')}/{r.get('scenarios')} suite_rc={r.get('suite_rc')}", flush=True)
         if r.get("status") == "caught":
             print("   ", (r["first"] or [""])[0][:160], flush=True)
             if len(r["first"]) > 1:
